@@ -34,8 +34,9 @@ TRUSTED = [
     "NumPy calls inside the modelled code (np.sort, np.argmax/argmin, np.unique, np.argsort) are modelled by their "
     "specification SparseV.Spec.Search, which this run compares with NumPy itself (leg B); np.argsort is taken to be "
     "stable on the <= 16-element arrays it is applied to",
-    "the wrappers around the kernels (moveaxis/reshape/transpose of sort and _arg_minmax_common, flatten of unique_*) "
-    "are C08 operations; here they are exercised only differentially (leg C)",
+    "group / column extraction inside the kernels is proved (sort_coo_rows, minmax_args_columns); the wrappers around the "
+    "kernels (moveaxis/reshape/transpose of sort and _arg_minmax_common, flatten of unique_*, result shape logic) are C08 "
+    "operations and are exercised here only differentially (leg C)",
     "NumPy is the reference for leg C; dtype and float behaviour are outside the theorems",
 ]
 # normalised-AST hashes of the hand-modelled functions on the tree the model was written against.  A changed hash is
